@@ -142,6 +142,7 @@ DIRTY = set()            # attribute names (other than the modelled cells) found
 STORED_NAMES = set()     # attribute names that some STORE_ATTR of the four modules stores (candidates for extra object state)
 SHARED_CONTAINERS = []   # [(description, name, object)]: module-level / class-level mutable containers of the four modules
 MUTABLE = (list, dict, set, bytearray)
+REBOUND_GLOBALS = set()  # module-level names rebound by a function of the four modules (STORE_GLOBAL)
 
 
 def _find_shared_containers():
@@ -347,6 +348,14 @@ def install():
         for ins in dis.get_instructions(code):
             if ins.opname == "STORE_ATTR" and ins.argval not in FIELDS and ins.argval != "point":
                 STORED_NAMES.add(ins.argval)
+    # module-level NAMES that some function rebinds (`global x; x = ...`): every load / store of such a name is a yield point
+    # too - state shared by all threads without being a container (round-8 seed C18-mut63-1: a one-entry memo of inverse_mod
+    # kept in two globals written on consecutive lines).  On the unchanged tree: numbertheory.miller_rabin_test_count only.
+    for code in all_codes:
+        for ins in dis.get_instructions(code):
+            if ins.opname == "STORE_GLOBAL":
+                REBOUND_GLOBALS.add(ins.argval)
+    names |= REBOUND_GLOBALS
     for code in all_codes:
         _ACCESS[code] = _scan(code, names)
         if _ACCESS[code]:
